@@ -145,7 +145,7 @@ EndClauses(t, s, tr) ==
                  [t |-> tr.events[k].t, o |-> tr.events[k].o,
                   info |-> [tr.events[k].info EXCEPT !.loans = ToSet(@)]]]
       Cl(name, cond) == IF cond THEN {} ELSE {name}
-  IN Cl("End_Complete", tr.complete)
+  IN Cl("End_Complete", tr.complete \/ tr.truncated)
      \cup (IF ~tr.complete THEN {} ELSE
            Cl("End_EventsMatchSpec", evs = s.events)
            \cup Cl("Inv_C05_Events", P(t)!Inv_C05_Events([s EXCEPT !.events = evs])))
